@@ -330,15 +330,33 @@ def main(argv=None):
 
     try:
         mod.run(ctx)
-    except Exception:
+    except Exception as exc:
+        tb = traceback.format_exc()
         traceback.print_exc()
-        print(f'HARNESS-ERROR property={prop}: exploration aborted by an exception in the harness')
-        ctx.notes.append('harness error: ' + traceback.format_exc()[-800:])
+        ctx.notes.append('exploration aborted: ' + tb[-800:])
+        explicit = isinstance(exc, AssertionError) and str(exc).startswith(('harness', 'vacuous', 'operation ', 'only '))
+        if explicit:
+            # a self-check of the machinery failed (vacuity, scheduler hang, lock replacement ...): not a statement about the code
+            print(f'HARNESS-ERROR property={prop}: exploration aborted by a failed self-check of the harness')
+            try:
+                write_evidence(ctx, len(ctx.violations), 0)
+            except Exception:
+                pass
+            return 2
+        # The exploration is deterministic and completes on the tree it was built against: an uncaught exception means the
+        # code under test broke something every execution relies on (e.g. a decorator returned a closure instead of the
+        # class).  Reported as a violation with the traceback as replay, never silently.
+        sig = f'exploration-aborted:{type(exc).__name__}'
+        ctx.violation(sig, f'the exploration was aborted by {type(exc).__name__}: {str(exc)[:200]} -- the code under test no longer behaves as every '
+                           f'execution of this check relies on', {'traceback': tb[-3000:]})
         try:
             write_evidence(ctx, len(ctx.violations), 0)
         except Exception:
             pass
-        return 2
+        for s2, v in list(ctx.violations.items())[:25]:
+            path = write_replay(ctx, s2, v)
+            print(f'VIOLATION property={prop} replay={path}  # {s2}: {v["what"][:300]} (x{v["count"]})')
+        return 1
 
     known = load_known(prop)
     n_known = 0
